@@ -19,6 +19,7 @@ CONSTANTS Ufrags,      \* ufrags connections are requested for
           Kinds,       \* datagram kinds: "data" (not STUN), or a ufrag / "ux" (STUN whose USERNAME starts with that ufrag)
           Writers,     \* writer process names
           MaxConns, MaxGrams, MaxWrites, MaxRemoves,
+          MaxStales,   \* concurrent model: GetConn calls for a ufrag whose connection is closed and not yet unlisted by its watcher
           MaxReads,    \* concurrent model: reads by a connection's user while the others are under way (0: the users read only at the end)
           StaleWrites, \* may a write start on a connection that is no longer listed (stale handle)?
           MuxClose,    \* is Close of the mux explored?
@@ -48,6 +49,8 @@ S0 == [made |-> 0, listed |-> [f \in Fams |-> [u \in Ufrags |-> 0]],
               wpc |-> [w \in Writers |-> "idle"], wc |-> [w \in Writers |-> 0], wx |-> [w \in Writers |-> "-"],
               dpc |-> "idle", dg |-> NoGram, dt |-> 0,
               rpc |-> "idle", ru |-> "-", rcs |-> {},
+              kpc |-> "idle", kc |-> 0, kcs |-> {},    \* the watcher goroutine of the connection whose last handle was closed
+              stales |-> 0,
               sent |-> 0, writes |-> 0, removes |-> 0, closes |-> 0, reads |-> 0,
               gone |-> {}]                           \* history: connections whose removal (or close) has completed
 Init == st = S0
@@ -110,15 +113,23 @@ rUnmap(S) == [S EXCEPT !.amap = unmapped(S, S.rcs), !.gone = @ \cup S.rcs, !.rpc
 rStep(S) == CASE S.rpc = "unlist" -> rUnlist(S) [] S.rpc = "unmap" -> rUnmap(S) [] OTHER -> S
 \* ---------------------------------------------------------------- Close of a connection's (only) handle; its watcher
 \* goroutine then removes the connection itself from the tables (if it is still listed) and drops its bindings
-CanCloseConn(S, c) == c <= S.made /\ ~S.hclosed[c] /\ S.closes < MaxCloses
-closeConn(S, c) == LET u == S.cu[c]
-                       \* the watcher fires once, on the real close
-                       cs == IF S.closed[c] THEN {} ELSE IF "c" \in Defects THEN unlisted(S, u) ELSE unlisted(S, u) \cap {c}
-                       S1 == [S EXCEPT !.hclosed[c] = TRUE, !.closed[c] = TRUE, !.q[c] = <<>>, !.closes = @ + 1]
-                       S2 == stop(S1, cs) IN
-    IF S.closed[c] THEN S1
-    ELSE [S2 EXCEPT !.listed = [f \in Fams |-> [x \in Ufrags |-> IF S2.listed[f][x] \in cs THEN 0 ELSE S2.listed[f][x]]],
-                    !.amap = unmapped(S2, cs), !.gone = @ \cup {c}]
+\* Close closes the connection at once (nothing is delivered to it any more); its watcher goroutine - woken by the close -
+\* then runs removeConns(ufrag, only this connection): k_unlist under m.mu (if the connection is no longer the one listed
+\* there is nothing to do and the address sweep is skipped), k_unmap under addressMapMu. One watcher at a time here.
+CanCloseConn(S, c) == c <= S.made /\ ~S.hclosed[c] /\ S.closes < MaxCloses /\ S.kpc = "idle"
+closeConn(S, c) == LET S1 == [S EXCEPT !.hclosed[c] = TRUE, !.closed[c] = TRUE, !.q[c] = <<>>, !.closes = @ + 1] IN
+    IF S.closed[c] THEN S1 ELSE [S1 EXCEPT !.kpc = "unlist", !.kc = c]      \* the watcher fires once, on the real close
+kUnlist(S) == LET u == S.cu[S.kc]
+                  cs == IF "c" \in Defects THEN unlisted(S, u) ELSE unlisted(S, u) \cap {S.kc}
+                  S2 == stop(S, cs) IN
+    [S2 EXCEPT !.listed = [f \in Fams |-> [x \in Ufrags |-> IF S2.listed[f][x] \in cs THEN 0 ELSE S2.listed[f][x]]],
+               !.kcs = cs, !.kpc = IF cs = {} THEN "idle" ELSE "unmap", !.gone = IF cs = {} THEN @ \cup {S.kc} ELSE @]
+kUnmap(S) == [S EXCEPT !.amap = unmapped(S, S.kcs), !.gone = @ \cup {S.kc}, !.kpc = "idle"]
+kStep(S) == CASE S.kpc = "unlist" -> kUnlist(S) [] S.kpc = "unmap" -> kUnmap(S) [] OTHER -> S
+\* GetConn for a ufrag whose listed connection is closed (its watcher has not unlisted it yet): the caller gets one more handle
+\* on that closed connection; nothing is created
+CanGetStale(S, u, f) == /\ ~S.muxClosed /\ S.listed[f][u] # 0 /\ S.closed[S.listed[f][u]] /\ S.stales < MaxStales
+getStale(S) == [S EXCEPT !.stales = @ + 1]
 \* ---------------------------------------------------------------- Close of the mux: closes the listed connections, empties the
 \* tables (the watchers then find nothing to remove, so the bindings stay), closes the socket
 closeMux(S) == LET cs == {S.listed[f][u] : f \in Fams, u \in Ufrags} \ {0} IN
@@ -143,17 +154,22 @@ RStart(u) == CanRStart(st, u) /\ st' = rStart(st, u)
 RUnlist == st.rpc = "unlist" /\ st' = rUnlist(st)
 RUnmap == st.rpc = "unmap" /\ st' = rUnmap(st)
 CloseConn(c) == CanCloseConn(st, c) /\ st' = closeConn(st, c)
+KUnlist == st.kpc = "unlist" /\ st' = kUnlist(st)
+KUnmap == st.kpc = "unmap" /\ st' = kUnmap(st)
+GetStale(u, f) == CanGetStale(st, u, f) /\ st' = getStale(st)
 CloseMux == MuxClose /\ ~st.muxClosed /\ st' = closeMux(st)
 Next == \/ \E u \in Ufrags, f \in Fams : GetConn(u, f)
         \/ \E w \in Writers : (\E c \in Conns, x \in Srcs : WStart(w, c, x)) \/ WCheck(w) \/ WContains(w) \/ WAppend(w) \/ WRegister(w)
         \/ (\E x \in Srcs, kd \in Kinds : DRead(x, kd)) \/ DLookup \/ DUfrag \/ DEnq \/ DPut
         \/ (\E c \in Conns, sh \in {"full", "short"} : URead(c, sh))
         \/ (\E u \in Ufrags : RStart(u)) \/ RUnlist \/ RUnmap
-        \/ (\E c \in Conns : CloseConn(c)) \/ CloseMux
+        \/ (\E c \in Conns : CloseConn(c)) \/ KUnlist \/ KUnmap \/ CloseMux
+        \/ \E u \in Ufrags, f \in Fams : GetStale(u, f)
 Spec == Init /\ [][Next]_st
 
 \* ================================================================ sequential model: one action = one whole operation
-Idle(S) == S.dpc = "idle" /\ S.rpc = "idle" /\ \A w \in Writers : S.wpc[w] = "idle"
+Idle(S) == S.dpc = "idle" /\ S.rpc = "idle" /\ S.kpc = "idle" /\ \A w \in Writers : S.wpc[w] = "idle"
+K2(S) == kStep(kStep(S))
 W4(S, w) == wStep(wStep(wStep(wStep(S, w), w), w), w)
 D3(S) == dStep(dStep(dStep(dStep(S))))   \* lookup, ufrag, enq, put
 R2(S) == rStep(rStep(S))
@@ -163,7 +179,7 @@ Target(S, x, kd) == LET S1 == D3(dRead(S, x, kd)) IN
 WriteOp(c, x) == CanWStart(st, AnyW, c, x) /\ st' = [W4(wStart(st, AnyW, c, x), AnyW) EXCEPT !.writes = 0]
 DispatchOp(x, kd) == ~st.muxClosed /\ st' = st
 RemoveOp(u) == CanRStart(st, u) /\ st' = [R2(rStart(st, u)) EXCEPT !.removes = 0]
-CloseOp(c) == CanCloseConn(st, c) /\ st' = [closeConn(st, c) EXCEPT !.closes = 0]
+CloseOp(c) == CanCloseConn(st, c) /\ st' = [K2(closeConn(st, c)) EXCEPT !.closes = 0]
 SeqNext == \/ \E u \in Ufrags, f \in Fams : GetConn(u, f)
            \/ \E c \in Conns, x \in Srcs : WriteOp(c, x)
            \/ \E x \in Srcs, kd \in Kinds : DispatchOp(x, kd)
@@ -173,11 +189,11 @@ SeqSpec == Init /\ [][SeqNext]_st
 SeqBound == TLCGet("level") <= MaxOps
 
 \* ================================================================ C12 on the model (MuxRouteMon states the property over observations)
-Busy(S, c) == (\E w \in Writers : S.wpc[w] # "idle" /\ S.wc[w] = c) \/ S.dpc # "idle" \/ S.rpc # "idle"
+Busy(S, c) == (\E w \in Writers : S.wpc[w] # "idle" /\ S.wc[w] = c) \/ S.dpc # "idle" \/ S.rpc # "idle" \/ S.kpc # "idle"
 \* after removal / close has completed and nothing is in progress, no address is bound to the connection
 GoneAfterRemove == \A c \in st.gone : (~Busy(st, c) /\ ~st.muxClosed) => \A k \in Keys : st.amap[k] # c
 \* a connection that was neither removed nor closed stays registered
-ListedUnlessGone == \A c \in Conns : (c <= st.made /\ c \notin st.gone /\ ~st.muxClosed /\ st.rpc = "idle") => Listed(st, c)
+ListedUnlessGone == \A c \in Conns : (c <= st.made /\ c \notin st.gone /\ ~st.muxClosed /\ st.rpc = "idle" /\ st.kpc = "idle") => Listed(st, c)
 \* a closed connection holds nothing
 ClosedEmpty == \A c \in Conns : st.closed[c] => st.q[c] = <<>>
 \* each datagram is queued at most once
